@@ -1,1 +1,81 @@
-fn main() {}
+//! Child process that runs pilota-build once:
+//!   vbuild <thrift|proto> <out.rs | out-dir for workspace> <main idl>... [--include-dir d]...
+//!          [--split] [--keep-unknown <idl>]... [--no-change-case] [--ignore-unused] [--touch <idl>:<Name>,...]
+//!          [--workspace]
+//! Isolation matters: the builder may panic or call process::exit.
+use std::path::PathBuf;
+
+fn main() {
+    let args: Vec<String> = std::env::args().skip(1).collect();
+    if args.len() < 3 {
+        eprintln!("usage: vbuild <thrift|proto> <out> <idl>... [options]");
+        std::process::exit(64);
+    }
+    let kind = args[0].clone();
+    let out = PathBuf::from(&args[1]);
+    let mut idls: Vec<PathBuf> = vec![];
+    let mut include_dirs: Vec<PathBuf> = vec![];
+    let mut keep: Vec<PathBuf> = vec![];
+    let mut touches: Vec<(PathBuf, Vec<String>)> = vec![];
+    let mut split = false;
+    let mut change_case = true;
+    let mut ignore_unused = false;
+    let mut workspace = false;
+    let mut i = 2;
+    while i < args.len() {
+        match args[i].as_str() {
+            "--include-dir" => {
+                i += 1;
+                include_dirs.push(PathBuf::from(&args[i]));
+            }
+            "--keep-unknown" => {
+                i += 1;
+                keep.push(PathBuf::from(&args[i]));
+            }
+            "--touch" => {
+                i += 1;
+                let (p, names) = args[i].split_once(':').expect("--touch path:Name,Name");
+                touches.push((PathBuf::from(p), names.split(',').map(|s| s.to_string()).collect()));
+            }
+            "--split" => split = true,
+            "--no-change-case" => change_case = false,
+            "--ignore-unused" => ignore_unused = true,
+            "--workspace" => workspace = true,
+            o => idls.push(PathBuf::from(o)),
+        }
+        i += 1;
+    }
+    let services: Vec<pilota_build::IdlService> = idls.iter().map(|p| pilota_build::IdlService::from_path(p.clone())).collect();
+    let output = if workspace { pilota_build::Output::Workspace(out) } else { pilota_build::Output::File(out) };
+    match kind.as_str() {
+        "thrift" => {
+            let mut b = pilota_build::Builder::thrift()
+                .ignore_unused(ignore_unused)
+                .split_generated_files(split)
+                .change_case(change_case)
+                .include_dirs(include_dirs)
+                .keep_unknown_fields(keep);
+            if !touches.is_empty() {
+                b = b.touch(touches);
+            }
+            b.compile_with_config(services, output);
+        }
+        "proto" => {
+            let mut b = pilota_build::Builder::protobuf()
+                .ignore_unused(ignore_unused)
+                .split_generated_files(split)
+                .change_case(change_case)
+                .include_dirs(include_dirs)
+                .keep_unknown_fields(keep);
+            if !touches.is_empty() {
+                b = b.touch(touches);
+            }
+            b.compile_with_config(services, output);
+        }
+        o => {
+            eprintln!("unknown kind {}", o);
+            std::process::exit(64);
+        }
+    }
+    println!("VBUILD-OK");
+}
